@@ -84,6 +84,8 @@ def parseOp (tok : String) : Option Op :=
     let acts ← parseActs acts
     -- `take_req_data` yields a map: later inserts of the same type replace earlier ones
     let xd := xd.foldl (fun m e => extInsert m e.1 e.2) []
+    -- authority-form targets are written `host~port` (`:` is the field separator)
+    let uri := String.ofList (uri.toList.map fun c => if c == '~' then ':' else c)
     pure (.serve ⟨⟨method, uri, ver, peer, hdrs⟩, conn, xd⟩ acts)
   | ["D", s] => (slot s).map .drop
   | ["V", s] => (slot s).map .view
